@@ -270,5 +270,5 @@ func run05(c drv.Case, res *drv.Result) {
 }
 
 func TestC05(t *testing.T) {
-	drv.Main(t, drv.Driver{ID: "C05", Gen: gen05, Run: run05, CaseTimeout: 5 * time.Minute})
+	drv.Main(t, drv.Driver{ID: "C05", Gen: gen05, Run: run05, CaseTimeout: 30 * time.Minute})
 }
